@@ -303,19 +303,48 @@ func (r *rwRT) ruleTerm() {
 	for _, sh := range shapes {
 		b := &shapeBuilder{r: r, st: newState(), panics: map[string]AV{}}
 		root := b.build(sh)
-		chk := b.st.alloc(&Obj{Kind: 's', Fields: map[string]AV{"panicCallSites": MapV{M: b.panics}}})
+		// The checker is built by its own constructor from "which calls are calls of the predeclared panic":
+		// a set of call sites, or a predicate over call sites — whichever the constructor takes.
+		mkChk := r.w.FuncOpt(pathRw, "mkTerminationChecker")
+		if mkChk == nil || mkChk.Signature.Params().Len() != 1 {
+			undecided("constructor mkTerminationChecker(<panic call sites>) not found")
+		}
+		var sitesArg AV
+		switch mkChk.Signature.Params().At(0).Type().Underlying().(type) {
+		case *types.Map:
+			sitesArg = MapV{M: b.panics}
+		case *types.Signature:
+			sitesArg = Sym{Name: "isPanicCall", NN: true}
+		default:
+			undecided("mkTerminationChecker takes neither a set of call sites nor a predicate over them")
+		}
+		panics := b.panics
+		oracle := func(prev func(cc *CallCtx) []Answer) func(cc *CallCtx) []Answer {
+			return func(cc *CallCtx) []Answer {
+				if cc.Fn != nil && cc.Fn.Name() == "Unparen" && len(cc.Args) == 1 {
+					return []Answer{{Ret: []AV{cc.Args[0]}, NoEvent: true}}
+				}
+				if isSymNamed(cc.Callee, "isPanicCall") && len(cc.Args) == 1 {
+					_, is := panics[unwrap(cc.Args[0]).String()]
+					return []Answer{{Ret: []AV{mkBool(is)}, NoEvent: true}}
+				}
+				return prev(cc)
+			}
+		}
+		inC := r.interp(rwConfig{root: mkChk, inlineAll: true})
+		inC.OnCall = oracle(inC.OnCall)
+		co := inC.Run(b.st, mkChk, []AV{sitesArg}, nil)
+		r.account(inC)
+		if len(co) != 1 || co[0].Panicked || len(co[0].Ret) != 1 {
+			undecided("mkTerminationChecker is not a single straight-line construction")
+		}
+		chk := co[0].Ret[0]
 		in := r.interp(rwConfig{root: fn, inlineAll: true})
 		in.MaxDepth = 40
 		in.MaxRecur = 12
 		in.MaxVisits = 8
-		prev := in.OnCall
-		in.OnCall = func(cc *CallCtx) []Answer {
-			if cc.Fn != nil && cc.Fn.Name() == "Unparen" && len(cc.Args) == 1 {
-				return []Answer{{Ret: []AV{cc.Args[0]}, NoEvent: true}}
-			}
-			return prev(cc)
-		}
-		outs := in.Run(b.st, fn, []AV{chk, root}, nil)
+		in.OnCall = oracle(in.OnCall)
+		outs := in.Run(co[0].St, fn, []AV{chk, root}, nil)
 		r.account(in)
 		evaluated++
 		want := refTerminating(sh)
@@ -443,23 +472,13 @@ func (r *rwRT) ruleKindTab() {
 		}
 		return b, st
 	}
-	run := func(method string, bk string, ks []string, term *bool) (AV, bool) {
+	run := func(method string, bk string, ks []string) (AV, bool) {
 		fn := r.method("block", method)
 		c.fn(relName(fn))
 		recv, st := mkBlockObj(bk, ks)
 		in := r.interp(rwConfig{root: fn, inlineAll: true})
 		in.MaxVisits = 8
-		args := []AV{recv}
-		if method == "returnNormalRequired" {
-			args = append(args, Sym{Name: "isTerminating", NN: true})
-			in.OnCall = func(cc *CallCtx) []Answer {
-				if isSymNamed(cc.Callee, "isTerminating") && term != nil {
-					return []Answer{{Ret: []AV{mkBool(*term)}}}
-				}
-				return nil
-			}
-		}
-		outs := in.Run(st, fn, args, nil)
+		outs := in.Run(st, fn, []AV{recv}, nil)
 		r.account(in)
 		if len(outs) != 1 {
 			return nil, false
@@ -492,7 +511,7 @@ func (r *rwRT) ruleKindTab() {
 	bad := 0
 	var ex []string
 	for _, ks := range lists {
-		got, ok := run("combineRequired", "kindDelay", ks, nil)
+		got, ok := run("combineRequired", "kindDelay", ks)
 		want := len(ks) > 0 && ks[len(ks)-1] != "kindTrival"
 		if b, known := asBool(got); !ok || !known || b != want {
 			bad++
@@ -505,7 +524,7 @@ func (r *rwRT) ruleKindTab() {
 	// mayContainsYield: iff some statement is a yield-bearing kind
 	bad, ex = 0, nil
 	for _, ks := range lists {
-		got, ok := run("mayContainsYield", "kindDelay", ks, nil)
+		got, ok := run("mayContainsYield", "kindDelay", ks)
 		want := false
 		for _, k := range ks {
 			if yielding[k] {
@@ -522,7 +541,59 @@ func (r *rwRT) ruleKindTab() {
 	c.check(bad == 0, "RW.KINDTAB", "mayContainsYield", r.w.FnPos(r.method("block", "mayContainsYield")),
 		fmt.Sprintf("%d kind lists: a block is treated as yield-free iff none of its statements is of a yield-bearing kind (if/switch/yield/combine/for)", len(lists)),
 		"yield-freeness of blocks differs from 'no statement of a yield-bearing kind': "+strings.Join(ex, " | "))
-	// returnNormalRequired
+	// returnNormalRequired: decided where it takes effect — does closing a thunk body (generateLastNormalIfNecessary)
+	// append `return Normal()`? How the decision is split between the block and the rewriter (a callback, a
+	// three-way verdict handed back, ...) is representation.
+	gen := r.method("yieldRewriter", "generateLastNormalIfNecessary")
+	c.fn(relName(gen))
+	appended := func(bk string, ks []string, term bool) (AV, bool) {
+		children, st := mkBlockObj(bk, ks)
+		blk, _ := r.astBlockOf(st, children)
+		if blk == nil {
+			return nil, false
+		}
+		before, okB := st.Obj(blk).Fields["List"].(SliceV)
+		if !okB && len(ks) > 0 {
+			return nil, false
+		}
+		in := r.interp(rwConfig{root: gen, boundaries: map[string]bool{"generateLastNormalIfNecessary": false}})
+		in.MaxVisits = 8
+		callNormal := Sym{Name: "callNormal", NN: true}
+		in.Fields["r.yieldAst.callNormal"] = callNormal
+		in.OnCall = wrapOnCall(in.OnCall, func(cc *CallCtx) []Answer {
+			if cc.Fn != nil && inRw(cc.Fn) && cc.Fn.Name() == "isTerminating" {
+				return []Answer{{Ret: []AV{mkBool(term)}, NoEvent: true}}
+			}
+			return nil
+		})
+		outs := in.Run(st, gen, []AV{Sym{Name: "r", NN: true}, children}, nil)
+		r.account(in)
+		if len(outs) != 1 {
+			return nil, false
+		}
+		if outs[0].Panicked {
+			return Sym{Name: "PANIC"}, true
+		}
+		if outs[0].St.Truncated {
+			return nil, false
+		}
+		after, okA := outs[0].St.Obj(blk).Fields["List"].(SliceV)
+		if !okA {
+			if len(ks) == 0 && outs[0].St.Obj(blk).Fields["List"] == nil {
+				return mkBool(false), true
+			}
+			return nil, false
+		}
+		switch len(after.Elems) - len(before.Elems) {
+		case 0:
+			return mkBool(false), true
+		case 1:
+			if matchTmpl(outs[0].St, after.Elems[len(after.Elems)-1], nd("ReturnStmt", map[string]Pat{"Results": lst(pVal{callNormal})})) == nil {
+				return mkBool(true), true
+			}
+		}
+		return nil, false
+	}
 	bad, ex = 0, nil
 	n := 0
 	for _, bk := range []string{"kindDelay", "kindFor", "kindIf", "kindSwitch"} {
@@ -530,7 +601,7 @@ func (r *rwRT) ruleKindTab() {
 			for _, term := range []bool{false, true} {
 				term := term
 				n++
-				got, ok := run("returnNormalRequired", bk, ks, &term)
+				got, ok := appended(bk, ks, term)
 				var want bool
 				switch {
 				case len(ks) == 0:
@@ -549,7 +620,7 @@ func (r *rwRT) ruleKindTab() {
 			}
 		}
 	}
-	c.check(bad == 0, "RW.KINDTAB", "returnNormalRequired", r.w.FnPos(r.method("block", "returnNormalRequired")),
+	c.check(bad == 0, "RW.KINDTAB", "returnNormalRequired", r.w.FnPos(gen),
 		fmt.Sprintf("%d rows (block kind x kind list x oracle): an implicit Normal is appended iff the block is empty, or its last statement is not a return-built kind and is not terminating — for every block kind that can become a thunk body (delay/for/if/switch), without tripping an internal assertion", n),
 		fmt.Sprintf("%d rows differ from the reference: %s", bad, strings.Join(ex, " | ")))
 }
